@@ -715,6 +715,9 @@ pub fn run(run: &Run) {
                 CAct::OnStatus { code: "NetStream.Publish.Start".into() },
                 CAct::PublishVideo { ts: 60, len: 600, droppable: false }, CAct::PublishVideo { ts: 60, len: 600, droppable: false }, CAct::PublishAudio { ts: 60, len: 5, droppable: false },
                 CAct::PublishAudio { ts: 60, len: 5, droppable: false }, CAct::PublishAudio { ts: 40, len: 5, droppable: true }, CAct::PublishMeta { variant: 16 },
+                CAct::PublishAudio { ts: 1000, len: 160, droppable: false }, CAct::PublishAudio { ts: 1020, len: 160, droppable: false }, CAct::PublishAudio { ts: 1040, len: 160, droppable: false },
+                CAct::PublishAudio { ts: 1060, len: 160, droppable: false }, CAct::PublishAudio { ts: 1080, len: 160, droppable: false }, CAct::PublishAudio { ts: 1130, len: 160, droppable: false },
+                CAct::PublishAudio { ts: 1180, len: 7, droppable: false },
             ];
             let mut done: Vec<Value> = Vec::new();
             let mut finished = true;
@@ -763,6 +766,12 @@ pub fn run(run: &Run) {
                 SAct::SendAudio { sid: target, ts: 60, len: 5, droppable: false }, SAct::SendAudio { sid: target, ts: 60, len: 5, droppable: false }, SAct::SendAudio { sid: target, ts: 40, len: 5, droppable: true },
                 SAct::FinishPlaying { sid: target }, SAct::Play { sid: target, key: "k2".into() }, SAct::Accept { id: 2 },
                 SAct::SendVideo { sid: target, ts: 70, len: 600, droppable: false }, SAct::SendMeta { sid: target, variant: 16 },
+                // constant-bit-rate audio: equal sizes at a constant spacing (type 3 chunks start the messages), then a
+                // different spacing
+                SAct::SendAudio { sid: target, ts: 1000, len: 160, droppable: false }, SAct::SendAudio { sid: target, ts: 1020, len: 160, droppable: false },
+                SAct::SendAudio { sid: target, ts: 1040, len: 160, droppable: false }, SAct::SendAudio { sid: target, ts: 1060, len: 160, droppable: false },
+                SAct::SendAudio { sid: target, ts: 1080, len: 160, droppable: false }, SAct::SendAudio { sid: target, ts: 1130, len: 160, droppable: false },
+                SAct::SendAudio { sid: target, ts: 1180, len: 7, droppable: false },
             ]);
             let mut done: Vec<Value> = Vec::new();
             let mut finished = true;
